@@ -633,7 +633,7 @@ func parseDateParts(dateString string, isEndOfRange bool) Date {
 	}
 
 	day := Atoi(parts[dayPos])
-	month := time.Month(months[monthName])
+	month, isMonth := months[monthName]
 	year := Atoi(parts[yearPos])
 
 	// Check the date is valid.
@@ -644,6 +644,16 @@ func parseDateParts(dateString string, isEndOfRange bool) Date {
 			IsEndOfRange: isEndOfRange,
 			Constraint:   DateConstraintFromString(parts[constraintPos]),
 			ParseError:   err,
+		}
+	}
+
+	// A word where the month should be that is not a month ("Foo 1900") must
+	// not be silently dropped, otherwise it becomes a different date.
+	if monthName != "" && !isMonth {
+		return Date{
+			IsEndOfRange: isEndOfRange,
+			Constraint:   DateConstraintFromString(parts[constraintPos]),
+			ParseError:   fmt.Errorf("the month is unknown: %s", monthName),
 		}
 	}
 
